@@ -104,6 +104,11 @@ def ec_chunk(items):
         except Exception as e:  # noqa: BLE001
             bad.append({"kind": "property", "text": t, "index": i, "what": f"error_context raised {type(e).__name__}"})
             continue
+        if line != Position(t, i).line_of().rstrip():
+            bad.append({"kind": "property", "text": t, "index": i,
+                        "what": f"error_context({t!r},{i}) shows the source line {line!r}, the line containing the "
+                                f"position is {Position(t, i).line_of().rstrip()!r}"})
+            continue
         if (ln, col) != Position(t, i).line_col():
             bad.append({"kind": "property", "text": t, "index": i,
                         "what": f"error_context({t!r},{i}) reports {ln}:{col}, line_col is {Position(t, i).line_col()}"})
